@@ -115,6 +115,8 @@ func init() {
 			ruleDictCapEncode(c, r, "")
 			ruleLzmaFilterCodec(c, r, "")
 			ruleBlockFilters(c, r, "")
+			ruleFilterWriterDict(c, r, "")
+			ruleEncoderDictArgs(c, r, "")
 			r.Floor("CE-DICT-DEC", 1)
 			r.Floor("CE-DICT-ENC", 1)
 			r.Floor("CE-FILTER", 2)
